@@ -15,7 +15,8 @@ CASE_IMPORTS = 'From V Require Import C03.Model C03.Corr.'
 RULE = ('systems of 1-8 molecules drawn from 1-3 templates (node keys in arbitrary order, permuted / absent atom ids), '
         'identical chains adjacent and interleaved with other molecules, copies differing only in ignored attributes '
         '(position, chain) and near-copies differing in exactly one compared aspect (atom-id permutation, one attribute, '
-        'nrexcl, one bond, interactions), with and without deduplication. The real NameMolType + write_gmx_topology + '
+        'nrexcl, one bond, interactions, the stashed input residue numbers), with and without deduplication, with and without the '
+        '-resid input step of martinize2 (stashed residue numbers written back after naming). The real NameMolType + write_gmx_topology + '
         'write_pdb + DeferredFileWriter.write run in a scratch directory; topol.top, every molecule_<i>.itp and the PDB are '
         'parsed and (i) compared with the model, (ii) checked directly: k-th coordinate record = k-th atom of the ITP of the '
         'molecule type, [ molecules ] expands to the coordinate order, each ITP included exactly once. non-trivial = >= 2 '
@@ -44,6 +45,11 @@ def gen_template(rng):
         if n >= 2:
             u, v = rng.sample(keys, 2)
             edges.add((min(u, v), max(u, v)))
+    if rng.random() < 0.4:
+        # residue numbers of the input file stashed next to the new ones (what martinize2 keeps as _old_resid)
+        off = rng.choice([0, 10, 100])
+        for nd in nodes:
+            nd['old'] = nd['resid'] + off
     return {'nrexcl': rng.choice([1, 1, 3]), 'nodes': nodes, 'edges': sorted(edges), 'inter': rng.randint(0, 3)}
 
 
@@ -56,7 +62,14 @@ def perturb(rng, t):
     if r < 0.45:
         return m, kind
     nodes = m['nodes']
-    choice = rng.choice(['atomid', 'attr', 'nrexcl', 'edge', 'inter', 'order', 'name'])
+    choice = rng.choice(['atomid', 'attr', 'nrexcl', 'edge', 'inter', 'order', 'name', 'oldresid', 'oldresid'])
+    if choice == 'oldresid' and any(nd.get('old') is not None for nd in nodes):
+        # the same chain with another input numbering: identical but for the stashed residue numbers
+        shift = rng.choice([1, 5, 20])
+        for nd in nodes:
+            if nd.get('old') is not None:
+                nd['old'] += shift
+        return m, 'oldresid'
     if choice == 'atomid' and len(nodes) >= 2 and all(nd['atomid'] is not None for nd in nodes):
         i, j = rng.sample(range(len(nodes)), 2)
         nodes[i]['atomid'], nodes[j]['atomid'] = nodes[j]['atomid'], nodes[i]['atomid']
@@ -101,7 +114,7 @@ def generate(rng, tier):
             b, _ = perturb(rng, templates[1])
             ms = [copy.deepcopy(templates[0]), b, a] + ms[:3]
             kinds = ['copy'] * 3 + kinds[:3]
-        cases.append({'dedup': rng.random() < 0.8, 'ms': ms, 'kinds': kinds})
+        cases.append({'dedup': rng.random() < 0.8, 'ms': ms, 'kinds': kinds, 'resid_input': rng.random() < 0.5})
     return cases
 
 
@@ -118,6 +131,8 @@ def _build(inp):
                          position=np.array([0.1 * nd['ignored'], 0.3, 0.01 * nd['key']]))
             if nd['atomid'] is not None:
                 attrs['atomid'] = nd['atomid']
+            if nd.get('old') is not None:
+                attrs['_old_resid'] = nd['old']
             mol.add_node(nd['key'], **attrs)
         mol.add_edges_from(m['edges'])
         keys = [nd['key'] for nd in m['nodes']]
@@ -137,6 +152,12 @@ def run_impl(inp):
     system = _build(inp)
     NameMolType(deduplicate=inp['dedup']).run_system(system)
     names = [int(m.meta['moltype'].rsplit('_', 1)[1]) for m in system.molecules]
+    if inp.get('resid_input'):
+        # martinize2 -resid input (bin/martinize2 l.1129-1132), after the molecule types are named
+        import networkx as nx
+        for molecule in system.molecules:
+            old_resids = nx.get_node_attributes(molecule, "_old_resid")
+            nx.set_node_attributes(molecule, old_resids, "resid")
     os.makedirs(WORK, exist_ok=True)
     d = tempfile.mkdtemp(prefix='c03_', dir=WORK)
     cwd = os.getcwd()
@@ -188,11 +209,18 @@ def run_impl(inp):
         shutil.rmtree(d, ignore_errors=True)
 
 
-def mol_lit(m):
+def mol_lit(m, resid_input=False):
+    # the stashed input residue number is one of the compared attributes: it goes into the tag of the other attributes,
+    # together with the residue number at naming time; with -resid input the residue number that is written is the stashed one
+    def other(nd):
+        return nd['other'] + 10 * nd['resid'] + 1000 * (1 + nd['old'] if nd.get('old') is not None else 0)
+
+    def written_resid(nd):
+        return nd['old'] if resid_input and nd.get('old') is not None else nd['resid']
     nodes = listlit(m['nodes'], lambda nd: ('{| n_key := %s; n_atomid := %s; n_name := %s; n_resname := %s; n_resid := %s; '
                                            'n_other := %s; n_ignored := %s |}') % (
-        zlit(nd['key']), optlit(nd['atomid'], zlit), strlit(nd['name']), strlit(nd['resname']), zlit(nd['resid']),
-        zlit(nd['other']), zlit(nd['ignored'])))
+        zlit(nd['key']), optlit(nd['atomid'], zlit), strlit(nd['name']), strlit(nd['resname']), zlit(written_resid(nd)),
+        zlit(other(nd)), zlit(nd['ignored'])))
     return '{| m_nrexcl := %s; m_nodes := %s; m_edges := %s; m_inter := %s |}' % (
         zlit(m['nrexcl']), nodes, listlit(m['edges'], lambda e: '(%s, %s)' % (zlit(e[0]), zlit(e[1]))), zlit(m['inter']))
 
@@ -203,7 +231,7 @@ def ident_lit(a):
 
 def emit(inp, out):
     return 'CSys %s %s %s %s %s %s %s' % (
-        blit(inp['dedup']), listlit(inp['ms'], mol_lit), listlit(out['names'], natlit),
+        blit(inp['dedup']), listlit(inp['ms'], lambda m: mol_lit(m, inp.get('resid_input', False))), listlit(out['names'], natlit),
         listlit(out['molecules'], lambda p: '(%s, %s)' % (natlit(p[0]), natlit(p[1]))),
         listlit(out['includes'], natlit), listlit(out['pdb'], lambda l: listlit(l, ident_lit)),
         listlit(out['itps'], lambda p: '(%s, %s)' % (natlit(p[0]), listlit(p[1], ident_lit))))
@@ -220,7 +248,8 @@ def describe(inp, out):
     interleaved = any(names[i] == names[k] and any(names[j] != names[i] for j in range(i + 1, k))
                       for i in range(len(names)) for k in range(i + 2, len(names)))
     return {'n_mols': len(inp['ms']), 'dedup': inp['dedup'], 'distinct_names': len(set(names)),
-            'interleaved_same_name': interleaved, 'near_copies': sum(1 for k in inp['kinds'] if k != 'copy')}
+            'interleaved_same_name': interleaved, 'near_copies': sum(1 for k in inp['kinds'] if k != 'copy'),
+            'resid_input': bool(inp.get('resid_input')), 'other_input_numbering': sum(1 for k in inp['kinds'] if k == 'oldresid')}
 
 
 def shrink(inp):
